@@ -1,7 +1,7 @@
 #!/bin/bash
 # kills background run_check.py runs and their solver processes (never the calling shell)
 for p in $(pgrep -x python3); do
-  if tr '\0' ' ' < /proc/$p/cmdline 2>/dev/null | grep -q "run_check.py"; then kill -9 $p 2>/dev/null; fi
+  if tr '\0' ' ' < /proc/$p/cmdline 2>/dev/null | grep -q "run_check.py\|thorough_smoke.py\|seed_matrix.py"; then kill -9 $p 2>/dev/null; fi
 done
 pkill -9 -x cbmc; pkill -9 -x kissat; rm -rf /var/tmp/verif.*
 exit 0
